@@ -315,6 +315,9 @@ VARIANTS += [
     V("twin-derivate-explicit-sum", ["C09"], CA, "        matrix = heavy.Calculus.derivate_nonrational_spline(tuple(knotvector))\n        ctrlpoints = np.dot(matrix, curve.ctrlpoints)\n", "        matrix = heavy.Calculus.derivate_nonrational_spline(tuple(knotvector))\n        points = curve.ctrlpoints\n        ctrlpoints = tuple(line[i] * points[i] + line[i + 1] * points[i + 1] for i, line in enumerate(matrix))\n", None, None, "bidiagonal product written out with scalar * point + scalar * point", twin=True),
     V("rev-F36", ["C20"], A, "        uasample = [(1 - node) * uamin + node * uamax for node in nodes_a_sample]\n", "        uasample = [uamin + (uamax - uamin) * node for node in nodes_a_sample]\n", "END-EXACT", "bcurve_and_bcurve", "closed sample mapped by lo + (hi - lo) * t"),
     V("twin-sample-clamped", ["C20"], A, "        uasample = [(1 - node) * uamin + node * uamax for node in nodes_a_sample]\n", "        uasample = [min(uamax, uamin + (uamax - uamin) * node) for node in nodes_a_sample]\n", None, None, "naive map, clamped to the upper end", twin=True),
+    V("rev-F37", ["C03"], H, "        if not (umin <= node <= umax):  # False also for a NaN, never ordered\n            return False\n        return True\n", "        if node < umin or umax < node:\n            return False\n        return True\n", "NAN-REJECT", "__valid_single", "validity by excluding the two outsides: a NaN passes"),
+    V("twin-valid-nan-selftest", ["C03", "C01"], H, "        if not (umin <= node <= umax):  # False also for a NaN, never ordered\n            return False\n        return True\n", "        if node < umin or umax < node or node != node:\n            return False\n        return True\n", None, None, "outsides excluded, NaN excluded by node != node", twin=True),
+    V("twin-valid-two-tests", ["C03", "C01"], H, "        if not (umin <= node <= umax):  # False also for a NaN, never ordered\n            return False\n        return True\n", "        if not umin <= node:\n            return False\n        if not node <= umax:\n            return False\n        return True\n", None, None, "two positive tests", twin=True),
     V("insert-divide-by-umax", ["C04"], H, "        one = knotvector[-1] - knotvector[0]\n", "        one = knotvector[-1]\n", "D", "one_knot_insert_once", "unit made from the last knot alone (0 for an interval ending at 0)", near=908),
     V("increase-in-place-kv", ["C06"], C, "        nodes = self.knotvector.knots\n        newnodes = times * nodes\n        newvector = self.knotvector + newnodes\n        oldvector = tuple(self.knotvector)\n        matrix = heavy.Operations.degree_increase(oldvector, times)\n", "        oldvector = tuple(self.knotvector)\n        matrix = heavy.Operations.degree_increase(oldvector, times)\n        newvector = KnotVector(self.knotvector)\n        newvector.degree += times\n", "SHARED-KV", "degree_increase", "the stored KnotVector object is elevated in place"),
 ]
